@@ -18,6 +18,8 @@ invariant after it from `nel_safe`) and on the grid the shift loop leaves (a suc
 resize(): `range_resize` — through `rangeR` (Model/EmuBodyRangeR.lean: `rangeS` plus the function-level loops `forS`, the
 allocation statements, the saved-cursor clamp and `printCell` = the check of print()'s body in the state of the call): every good
 old state with stored cell widths ≤ 65535, every new size 1..65535. tbc/hts, sgr/osc/modes have no arithmetic on positions.
+Round 5: the int arguments of formatted replies are part of the check (`exsR`): `range_csi_arm_6e` (the `+ 1`s of the cursor-position
+report), `range_decrqm`.
 -/
 import VaxisModel.Lemmas.EmuBodyRange
 import VaxisModel.Lemmas.EmuBodyRange2
@@ -374,6 +376,29 @@ theorem range_csi_sd {e : Emu} {rows cols : Nat} (h : EmuInv e rows cols) (d : D
     rangeBody TermBodies.body_csi_sd pm [] e = true := by
   simp only [TermBodies.body_csi_sd, TermBodies.stmt_csi_sd]
   range_norm; (try range_norm); (try range_norm); range_fin
+
+/-- DSR (`CSI n`): the `vt.cursor.row+1` / `vt.cursor.col+1` of the cursor-position report (round 5: the int arguments of a formatted
+    reply are carried by `Stmt.reply` and checked by `rangeS` through `exsR`) — every good state, every parameter list -/
+theorem range_csi_arm_6e {e : Emu} {rows cols : Nat} (h : EmuInv e rows cols) (d : Dim rows cols) (pm : List Param) :
+    rangeBody TermBodies.body_csi_arm_6e pm [] e = true := by
+  obtain ⟨b1, b2, b3, b4, b5, b6, b7, b8, b9, b10, b11, b12, b13, b14, b15⟩ := good_bounds h d
+  simp only [TermBodies.body_csi_arm_6e, TermBodies.stmt_csi_arm_6e, rangeBody, rangeS, exsR, condR, exR, evalEx, evalCond, evalCmp,
+    initFrame, Frame.get, inR, lim, Bool.and_true, Bool.true_and, andThen_norm, evalS]
+  split
+  · trivial
+  · split
+    · exact (Bool.and_eq_true _ _).mpr ⟨decide_eq_true (by omega), decide_eq_true (by omega)⟩
+    · trivial
+
+/-- decrqm(): no arithmetic at all (the arguments of its `Fprintf` are the locals `pd`, `ps`), any state, any mode number -/
+theorem range_decrqm (e : Emu) (pd : Int) : rangeBody TermBodies.body_decrqm [] [pd] e = true := by
+  simp only [TermBodies.body_decrqm, TermBodies.stmt_decrqm]
+  range_norm
+  simp only [exsR, exR, Bool.and_true]
+  repeat' split
+  all_goals first | trivial | simp
+/-- the check sees the report's arithmetic: a cursor row of 2^62 is out of range -/
+example : rangeBody TermBodies.body_csi_arm_6e [(6, [])] [] { Emu.init with cur := { row := 4611686018427387904 } } = false := by decide
 
 /-- Non-vacuity of the check itself: with an unclamped parameter the same check FAILS (2^63−1
     lines down from row 0: `vt.cursor.row += row(ps)` leaves the range). -/
